@@ -632,6 +632,12 @@ def r17_conform(ctx: Ctx) -> None:
     # ---- R17.3
     ask = m.func(SQL_SELECT, "Select.apply_skip")
     order = ["sort", "projection", "deduplication", "slice"]
+    # local names: the running target (first bound to skip_to) and the compound flag (what the constructor receives)
+    run_t = next((src(n.targets[0]) for n in ast.walk(ask.node) if isinstance(n, ast.Assign) and src(n.value) == "skip_to" and isinstance(n.targets[0], ast.Name)), "target")
+    comp_v = "is_compound"
+    for c in iter_calls(ask.node):
+        if (dotted(c.func) or "") in ("cls", "Select") and kw(c, "is_compound") is not None:
+            comp_v = src(kw(c, "is_compound"))
     for i, p in enumerate(ctx.paths(ask)):
         if p.outcome != "return":
             continue
@@ -642,7 +648,7 @@ def r17_conform(ctx: Ctx) -> None:
             if call_attr(c) == "_finish_apply" and isinstance(c.func, ast.Attribute):
                 recv = src(c.func.value)
                 seq.append(recv)
-                if not c.args or src(c.args[0]) != "target":
+                if not c.args or src(c.args[0]) != run_t:
                     bad = f"`{src(c)}` is not applied to the running target"
         idxs = [order.index(s) for s in seq if s in order]
         if any(s not in order for s in seq):
@@ -655,7 +661,8 @@ def r17_conform(ctx: Ctx) -> None:
         else:
             for slot in order + ["skip_to", "target", "is_compound"]:
                 a = kw(v, slot)
-                if a is None or src(a) != slot:
+                want = {"target": run_t, "is_compound": comp_v}.get(slot, slot)
+                if a is None or src(a) != want:
                     bad = bad or f"constructor argument {slot}={src(a)} is not the object that was applied"
         if bad:
             run.fail("R17.3", inst, bad, fi=ask, node=p.node, details=describe(p))
@@ -680,14 +687,14 @@ def r17_conform(ctx: Ctx) -> None:
         else:
             run.fail("R17.3", inst, f"the `{slot}` slot is skipped on a path that never tested it for triviality", fi=ask)
     # is_compound
-    comp_true = [n for n in ast.walk(ask.node) if isinstance(n, ast.Assign) and any(src(t) == "is_compound" for t in n.targets) and isinstance(n.value, ast.Constant) and n.value.value is True]
+    comp_true = [n for n in ast.walk(ask.node) if isinstance(n, ast.Assign) and any(src(t) == comp_v for t in n.targets) and isinstance(n.value, ast.Constant) and n.value.value is True]
     ok = False
     for n in ast.walk(ask.node):
         if isinstance(n, ast.Match) and src(n.subject) == "skip_to":
             for case in n.cases:
                 if "Chain" in src(case.pattern) and "BinaryOperationRelation" in src(case.pattern) and any(a in case.body for a in comp_true):
                     ok = len(comp_true) == 1
-    default_false = any(isinstance(n, ast.Assign) and any(src(t) == "is_compound" for t in n.targets) and isinstance(n.value, ast.Constant) and n.value.value is False for n in ast.walk(ask.node))
+    default_false = any(isinstance(n, ast.Assign) and any(src(t) == comp_v for t in n.targets) and isinstance(n.value, ast.Constant) and n.value.value is False for n in ast.walk(ask.node))
     if ok and default_false:
         run.ok("R17.3", "apply_skip:is_compound")
     else:
